@@ -574,10 +574,11 @@ impl<Backing : AsRef<[u32]> + AsMut<[u32]>> DrawTarget<Backing> {
         let clip = match self.clip_stack.last() {
             Some(Clip {
                      rect: current_clip,
-                     mask: _,
+                     mask,
                  }) => Clip {
                 rect: current_clip.intersection_unchecked(&rect),
-                mask: None,
+                // only the top entry is consulted when drawing: keep the path clip in force
+                mask: mask.clone(),
             },
             _ => Clip {
                 rect: rect,
